@@ -234,6 +234,34 @@ def structure_to_cif(s, cif):
     return cifgen.cif_text(atoms), cmap
 
 
+def tip_table(tier="quick"):
+    """Finite table of directed clashes: GLY-X-GLY for every residue type X with a side-chain tip,
+    a second chain whose one heavy atom sits `gap` beyond each tip of X (so that the hydrogens added
+    at the tip bump and the debumper has to turn the side chain), x atom orders inside the residue
+    (template order, three permutations) x side-chain conformers.  Descriptors only."""
+    out = []
+    gaps = [1.3, 1.7, 2.1] if tier == "quick" else [1.2, 1.4, 1.6, 1.8, 2.0, 2.2, 2.4]
+    chis = [[-60.0, 180.0, 60.0, 180.0, -60.0], [180.0, 60.0, 180.0, -60.0, 60.0]]
+    if tier != "quick":
+        chis.append([60.0, -70.0, -170.0, 65.0, 175.0])
+    for x, tips in sorted(build.TIP_ATOMS.items()):
+        for t in range(len(tips)):
+            for gi, gap in enumerate(gaps):
+                for si, shuffle in enumerate([0, 5, 11, 23]):
+                    for ci, chi in enumerate(chis):
+                        if tier == "quick" and (gi + si + ci) % 2:
+                            continue  # half of the grid at the quick tier
+                        a = dict(id="A", start=1, seq=["GLY", x, "GLY"], phi=[-70.0] * 3, psi=[140.0, 135.0, 145.0], chi=[chi] * 3,
+                                 hyd="none", oxt=True, q=[1, 0.1 * si, 0.2, 0.3], ter=True)
+                        if shuffle:
+                            a["shuffle"] = shuffle
+                        b = dict(id="B", start=11, seq=["GLY", "GLY"], phi=[-65.0] * 2, psi=[150.0, 140.0], chi=[chi] * 2, hyd="none",
+                                 oxt=True, q=[1, 0.3, 0.1, 0.2], ter=True,
+                                 contact=dict(target=t, dir=[0.1 * ci, 0.05 * gi, 0.02], gap=gap, tip=True))
+                        out.append(dict(chains=[a, b], waters=[]))
+    return out
+
+
 def neutral_opts(draw, ff, opts):
     """--neutraln / --neutralc (accepted with PARSE only) for runs that add atoms."""
     out = []
